@@ -4,7 +4,8 @@
   Mirrors, guard by guard and in the order of the code, what every public entry point of pony/orm/core.py does with an
   object whose session cache is gone (`obj._session_cache_ is None`) or dead (`not cache.is_alive`):
     SessionCache.close (the `connection is None` early return, the strict / non-strict detaching loops),
-    Attribute.__get__/get/load/__set__, Entity.set/delete/flush/load/_load_/to_dict,
+    Attribute.__get__/get/load/__set__, Entity.set/delete/flush/load/_load_/to_dict   (flush/count/is_empty as of the
+    `fix:` commit made from fixes/C32-detached-guards.diff: liveness guard first),
     Set.__get__/__set__/copy/load, SetInstance.__len__/count/is_empty/__contains__/add/remove/clear/load/select,
     the `validate` check met by `E(ref=obj)`.
   When every guard passes with a LIVE cache the model stops with `Out.live` (the session code proper is the business of the
@@ -83,7 +84,7 @@ structure World where
   deriving DecidableEq, Repr, Inhabited
 
 inductive Action
-  | loadAttribute | readValue | assign | loadCollection | changeCollection | loadObject | deleteObject | changeObject
+  | loadAttribute | readValue | assign | loadCollection | changeCollection | loadObject | deleteObject | changeObject | flushObject
   deriving DecidableEq, Repr, Inhabited
 
 inductive Rv
@@ -132,7 +133,7 @@ inductive Op
   | collCopy (a : Attr)                        -- wrapper.copy(), iteration, ==, +, -
   | collLen (a : Attr)                         -- len(wrapper), bool(wrapper)
   | collCount (a : Attr)
-  | collIsEmpty (a : Attr) (dbItem : Option Nat)   -- dbItem: the row the SELECT … LIMIT 1 would return, if it runs
+  | collIsEmpty (a : Attr)
   | collContains (a : Attr) (item : Nat)
   | collLoad (a : Attr)
   | collSelect (a : Attr)
@@ -267,11 +268,6 @@ def toDictLoop (i : Nat) : List Attr → World → List (Nat × Rv) → Res
     | (w', .ok v) => toDictLoop i rest w' ((a.id, v) :: acc)
     | (w', .error out) => ⟨w', out, []⟩
 
-/-- `database._exec_sql` reached from a method that did not check the object's own session:
-    `Database._get_cache` raises without an ambient db_session, otherwise the statement runs in the CURRENT session -/
-def execSql (env : Env) (w : World) (onOk : World) (v : Rv) : Res :=
-  if env.ambient then ⟨onOk, .value v, [.select]⟩ else ⟨w, .dbRequired, []⟩
-
 /-! ### the step function -/
 
 def step (env : Env) (w : World) (i : Nat) (op : Op) : Res :=
@@ -290,10 +286,11 @@ def step (env : Env) (w : World) (i : Nat) (op : Op) : Res :=
   | .delete =>
     if over w o then ⟨w, .sessionOver .deleteObject, []⟩ else ⟨w, .live, []⟩
   | .flush =>
-    -- no liveness guard: `if status not in (...): return`, then two asserts
+    -- `if status not in (...): return`; liveness guard; `assert save_pos is not None`; `assert not cache.saved_objects`
     if !o.status.isPending then ⟨w, .noop, []⟩ else
+    if over w o then ⟨w, .sessionOver .flushObject, []⟩ else
     if o.savePos.isNone then ⟨w, .assertion, []⟩ else
-    if over w o || w.savedPending then ⟨w, .assertion, []⟩ else ⟨w, .live, []⟩
+    if w.savedPending then ⟨w, .assertion, []⟩ else ⟨w, .live, []⟩
   | .load =>
     if over w o then ⟨w, .sessionOver .loadObject, []⟩ else ⟨w, .live, []⟩
   | .loadInternal =>
@@ -323,39 +320,28 @@ def step (env : Env) (w : World) (i : Nat) (op : Op) : Res :=
     match o.vals with
     | none => ⟨w, .sessionOver .readValue, []⟩
     | some vs =>
-      -- `if setdata is None: setdata = obj._vals_[attr] = SetData()` happens BEFORE the liveness guard
+      -- `if setdata is not None and setdata.count is not None: return setdata.count`; liveness guard; only then the slot is materialised
       let known : Option Nat := match lookup vs a.id with
         | some (.coll sd) => sd.count
         | _ => none
-      let w1 : World := match lookup vs a.id with
-        | some (.coll _) => w
-        | _ => w.setObj i { o with vals := some (setSlot vs a.id (.coll SetData.empty)) }
       match known with
-      | some c => ⟨w1, .value (.nat c), []⟩
-      | none => if over w o then ⟨w1, .sessionOver .readValue, []⟩ else ⟨w1, .live, []⟩
-  | .collIsEmpty a dbItem =>
+      | some c => ⟨w, .value (.nat c), []⟩
+      | none => if over w o then ⟨w, .sessionOver .readValue, []⟩ else ⟨w, .live, []⟩
+  | .collIsEmpty a =>
     if o.status.isDel then ⟨w, .wasDeleted, []⟩ else
     match o.vals with
     | none => ⟨w, .sessionOver .readValue, []⟩
     | some vs =>
-      -- there is NO liveness guard on this path; `database._exec_sql` uses whatever session the thread has now
-      let finish (w1 : World) (sd : SetData) : Res :=
-        let sd2 : SetData :=
-          if a.revIsColl then
-            match dbItem with
-            | some j => { sd with items := if sd.items.contains j then sd.items else sd.items ++ [j] }
-            | none => sd
-          else sd
-        let sd3 : SetData := if sd2.items.isEmpty then { sd2 with full := true, absent := none, count := some 0 } else sd2
-        execSql env w1 (w1.setObj i { o with vals := some (setSlot vs a.id (.coll sd3)) }) (.bool sd2.items.isEmpty)
+      -- answers from memory first; the liveness guard stands before the slot is materialised and before any SQL
+      let guard : Res := if over w o then ⟨w, .sessionOver .readValue, []⟩ else ⟨w, .live, []⟩
       match lookup vs a.id with
       | some (.coll sd) =>
         if sd.full then ⟨w, .value (.bool sd.items.isEmpty), []⟩ else
         if !sd.items.isEmpty then ⟨w, .value (.bool false), []⟩ else
         match sd.count with
         | some c => ⟨w, .value (.bool (c == 0)), []⟩
-        | none => finish w sd
-      | _ => finish (w.setObj i { o with vals := some (setSlot vs a.id (.coll SetData.empty)) }) SetData.empty
+        | none => guard
+      | _ => guard
   | .collContains a j =>
     if o.status.isDel then ⟨w, .wasDeleted, []⟩ else
     match o.vals with
@@ -414,6 +400,7 @@ def Op.action : Op → Action
   | .collAssign _ _ | .collAdd _ | .collRemove _ | .collClear _ => .changeCollection
   | .attrLoad _ => .loadAttribute
   | .load | .loadInternal => .loadObject
+  | .flush => .flushObject
   | .collLoad _ => .loadCollection
   | _ => .readValue
 
